@@ -1242,10 +1242,92 @@ func fixedSTSExpiry() []Case {
 	return out
 }
 
+// ---------------------------------------------------------------- sts.closeatack
+//
+// The server acknowledges a valid policy on plaintext and hangs up at the same moment (what
+// an on-path attacker can always do). Which of the two ends the connection first is a race
+// inside the client, so this is not part of the differential scenarios: the probe repeats
+// the exchange and reports if ANY repetition ends with Connect returning without the secure
+// redial. The observation is constant; the model has no such input (its scripts assume that
+// the teardown after the upgrade's Close() reports no error). Not listed in conf/C10.json
+// until the integrator has decided about the finding (see notes/proposed-fixes).
+func runSTSCloseAtAck(c Case) Result {
+	reps := 40
+	lost, stuck := 0, 0
+	for i := 0; i < reps; i++ {
+		var mu sync.Mutex
+		var dials []string
+		cl := girc.New(girc.Config{Server: stsHost, Port: stsCfgPort, Nick: "me", User: "user", AllowFlood: true,
+			RecoverFunc: func(*girc.Client, *girc.HandlerError) {}})
+		d := stsFuncDialer(func(addr string) (net.Conn, error) {
+			mu.Lock()
+			dials = append(dials, addr)
+			n := len(dials)
+			mu.Unlock()
+			if n > 1 {
+				return nil, errors.New("scripted dial failure")
+			}
+			cli, srv := net.Pipe()
+			go func() {
+				defer srv.Close()
+				r := bufio.NewReader(srv)
+				srv.SetDeadline(time.Now().Add(stsPeerWait))
+				for {
+					l, err := r.ReadString('\n')
+					if err != nil {
+						return
+					}
+					if strings.HasPrefix(l, "USER ") {
+						break
+					}
+				}
+				srv.Write([]byte(":srv CAP * LS :sts=port=6697\r\n"))
+				if _, err := r.ReadString('\n'); err != nil {
+					return
+				}
+				srv.Write([]byte(":srv CAP * ACK :sts\r\n"))
+			}()
+			return cli, nil
+		})
+		done := make(chan error, 1)
+		go func() { done <- cl.DialerConnect(d) }()
+		select {
+		case <-done:
+		case <-time.After(3 * stsPeerWait):
+			return Result{Obs: "?connect-did-not-return", Oracle: "harness: Connect did not return", Sig: "harness"}
+		}
+		mu.Lock()
+		n := len(dials)
+		second := ""
+		if n > 1 {
+			second = dials[1]
+		}
+		mu.Unlock()
+		if n < 2 {
+			lost++
+		} else if second != net.JoinHostPort(stsHost, "6697") {
+			return Result{Obs: "probe", Oracle: "redial-addr: redialled " + second, Sig: "closeatack"}
+		}
+		if cl.VerifSTSState().BeginUpgrade {
+			stuck++
+		}
+	}
+	oracle := ""
+	if lost > 0 || stuck > 0 {
+		oracle = fmt.Sprintf("upgrade-lost-on-close: server hangs up with the sts acknowledgement: %d/%d Connect calls returned without the secure redial, beginUpgrade left set in %d", lost, reps, stuck)
+	}
+	return Result{Obs: "probe", Oracle: oracle, Sig: "closeatack"}
+}
+
+type stsFuncDialer func(addr string) (net.Conn, error)
+
+func (f stsFuncDialer) Dial(network, addr string) (net.Conn, error) { return f(addr) }
+
 func init() {
 	Register(&Suite{Name: "sts.scenarios", Prop: []string{"C10"}, Fixed: fixedSTSScenarios, Gen: genSTSScenario, Run: runSTSScenario})
 	Register(&Suite{Name: "sts.policy", Prop: []string{"C10"}, Fixed: fixedSTSPolicy,
 		Exhaustive: "every port value x every duration value of the policy table on plaintext and on TLS, under four configurations",
 		Run:        runSTSScenario})
 	Register(&Suite{Name: "sts.expiry", Prop: []string{"C10"}, Fixed: fixedSTSExpiry, Gen: genSTSExpiry, Run: runSTSExpiry})
+	Register(&Suite{Name: "sts.closeatack", Prop: []string{"C10"}, Gen: func(*rand.Rand) Case { return Case{"probe"} }, Run: runSTSCloseAtAck})
 }
